@@ -182,11 +182,73 @@ def unpack(chk):
                 env[s.targets[0].id] = BPEval(env, inp, cast).ev(s.value)
             except NotInDomain:
                 pass
+    # header state must be refreshed unconditionally by every header record
+    top = {s.targets[0].id for s in H.body if isinstance(s, ast.Assign) and isinstance(s.targets[0], ast.Name)}
+    nested = []
     for s in H.body:
-        if isinstance(s, ast.Assign) and isinstance(s.targets[0], ast.Name):
-            try:
-                env[s.targets[0].id] = BPEval(env, inp, cast).ev(s.value)
-            except NotInDomain as e:
+        if not isinstance(s, ast.Assign):
+            for n in ast.walk(s):
+                if isinstance(n, ast.Assign) and isinstance(n.targets[0], ast.Name):
+                    nested.append(n)
+    used_by_particles = set()
+    for s in H.orelse:
+        used_by_particles |= {n.id for n in ast.walk(s) if isinstance(n, ast.Name)}
+    # transitive: header variables feeding the ones the particle branch reads
+    allh = [s for s in H.body if isinstance(s, ast.Assign)] + nested
+    changed = True
+    while changed:
+        changed = False
+        for a in allh:
+            if isinstance(a.targets[0], ast.Name) and a.targets[0].id in used_by_particles:
+                new = {n.id for n in ast.walk(a.value) if isinstance(n, ast.Name)} - used_by_particles
+                if new:
+                    used_by_particles |= new
+                    changed = True
+    # a conditional refresh is a sound cache iff the guard compares every header field the cached value depends on
+    hdefs = {}
+    for a in allh:
+        if isinstance(a.targets[0], ast.Name):
+            hdefs.setdefault(a.targets[0].id, []).append(a.value)
+
+    def fields_of(expr, seen=()):
+        out = set()
+        for n in ast.walk(expr):
+            if isinstance(n, ast.Subscript) and unparse(n.value) == sh and isinstance(n.slice, ast.Constant):
+                out.add(n.slice.value)
+            elif isinstance(n, ast.Name) and n.id in hdefs and n.id not in seen:
+                for v in hdefs[n.id]:
+                    out |= fields_of(v, seen + (n.id,))
+        return out
+
+    def guard_fields(node):
+        out = None
+        p = getattr(node, '_parent', None)
+        while p is not None and p is not H:
+            if isinstance(p, ast.If):
+                t = p.test
+                f = fields_of(t) if isinstance(t, ast.Compare) and isinstance(t.ops[0], ast.NotEq) else set()
+                out = f if out is None else (out | f)
+            p = getattr(p, '_parent', None)
+        return out or set()
+    cond_state = sorted({n.targets[0].id for n in nested if n.targets[0].id in used_by_particles and n.targets[0].id not in top
+                         and not fields_of(n.value) <= guard_fields(n)})
+    chk.check(not cond_state, 'C15-R2', P9, '_unpack_pack9', 'every header record refreshes all of the header state unconditionally', f'state: {sorted(top & used_by_particles)}',
+              f'header state {cond_state} is refreshed only when other header fields change, although it also depends on fields the guard does not compare: '
+              'particles after a later header can be decoded with the previous header\'s value',
+              node=nested[0] if nested else H)
+
+    def walk_assigns(stmts):
+        for s in stmts:
+            if isinstance(s, ast.Assign) and isinstance(s.targets[0], ast.Name):
+                yield s
+            elif isinstance(s, ast.If):
+                yield from walk_assigns(s.body)
+                yield from walk_assigns(s.orelse)
+    for s in walk_assigns(H.body):
+        try:
+            env[s.targets[0].id] = BPEval(env, inp, cast).ev(s.value)
+        except NotInDomain as e:
+            if s.targets[0].id in used_by_particles:
                 chk.refuted('C15-R3', P9, '_unpack_pack9', f'header state {s.targets[0].id}', f'not a polynomial form: {e}', node=s)
     mode['ctx'] = 'S'
     got = {}
@@ -210,6 +272,8 @@ def unpack(chk):
                     except ValueError:
                         pass
     if B is None:
+        if chk.refutations():
+            return
         raise AnalysisError('_unpack_pack9: cells-per-dimension term 1/(sh[1] + bias) not recognised')
     inv = Poly.sym(f'inv({Poly.sym("H1") + B!r})')
     box, velz = Poly.sym(boxp), Poly.sym(velzp)
